@@ -406,3 +406,74 @@ func ReplayObject(r *StepResult) map[string]any {
 	}
 	return map[string]any{"init": json.RawMessage(r.Init), "path": PathString(r.Path), "actions": acts, "seed": r.Conc.Seed, "files_after": files}
 }
+
+// SampleTries picks n Generate edges at random (seeded) among all edges
+// reachable from the initial states and returns, per initial state, the
+// prefix tree of the BFS-shortest histories that end with them.
+func (g *Graph) SampleTries(n int, seed int64) (map[string]*Trie, int) {
+	type cand struct {
+		init string
+		e    *REdge
+	}
+	parents := map[string]map[string]*REdge{}
+	var cands []cand
+	for _, init := range g.Inits {
+		par := map[string]*REdge{init: nil}
+		queue := []string{init}
+		for len(queue) > 0 {
+			s := queue[0]
+			queue = queue[1:]
+			for _, e := range g.Out[s] {
+				if _, ok := par[e.T]; !ok {
+					par[e.T] = e
+					queue = append(queue, e.T)
+				}
+				if e.A.Name == "Generate" {
+					cands = append(cands, cand{init, e})
+				}
+			}
+		}
+		parents[init] = par
+	}
+	sort.Slice(cands, func(i, j int) bool {
+		if cands[i].init != cands[j].init {
+			return cands[i].init < cands[j].init
+		}
+		return cands[i].e.Key < cands[j].e.Key
+	})
+	// seeded Fisher-Yates with a splitmix generator (no dependency on math/rand's algorithm)
+	x := uint64(seed)*0x9E3779B97F4A7C15 + 0x1234567
+	next := func() uint64 {
+		x += 0x9E3779B97F4A7C15
+		z := x
+		z = (z ^ (z >> 30)) * 0xBF58476D1CE4E5B9
+		z = (z ^ (z >> 27)) * 0x94D049BB133111EB
+		return z ^ (z >> 31)
+	}
+	for i := len(cands) - 1; i > 0; i-- {
+		j := int(next() % uint64(i+1))
+		cands[i], cands[j] = cands[j], cands[i]
+	}
+	if n > len(cands) {
+		n = len(cands)
+	}
+	out := map[string]*Trie{}
+	for _, c := range cands[:n] {
+		var rev []*REdge
+		for s := c.e.S; s != c.init; {
+			pe := parents[c.init][s]
+			rev = append(rev, pe)
+			s = pe.S
+		}
+		path := make([]*REdge, 0, len(rev)+1)
+		for i := len(rev) - 1; i >= 0; i-- {
+			path = append(path, rev[i])
+		}
+		path = append(path, c.e)
+		if out[c.init] == nil {
+			out[c.init] = &Trie{}
+		}
+		out[c.init].insert(path)
+	}
+	return out, n
+}
